@@ -552,7 +552,7 @@ class MappedDFTKernel(KernelEvalBase, XCEvalSerializable):
                     res[s][cond[s]] = 0.0
                     dres[s][:, cond[s]] = 0.0
             else:
-                cond = X0T[:, 0].sum(0) < rhocut
+                cond = X0T[:, 0].mean(0) < rhocut
                 res[..., cond] = 0.0
                 dres[..., cond] = 0.0
         if self.mode == "SEP":
